@@ -42,7 +42,77 @@ HELPERS = [
     "  function <A, B> pipe(x: A, f: (A) -> B): B = f(x)",
     "  function <T> pick(a: T, b: T, c: bool): T = if c { a } else { b }",
     "  function <A> count(f: (A) -> int): int = 7",
+    "  function seven(): int = 7",
+    "  function <T> constFn(v: T): (T) -> T = (ignored) -> v",
+    "  function <T> orElse(o: Maybe<T>, d: T): T = o.getOr(d)",
+    "  function mkJust(x: int): Maybe<int> = Maybe.Just(x)",
+    "  function incFn(): (int) -> int = (q: int) -> q + 1",
+    "  function shOf(x: int): Sh = if x % 3 == 0 { Sh.Ci(x) } else { if x % 3 == 1 { Sh.Re(x, 1) } else { Sh.Em() } }",
 ]
+
+# ---- branch-structured arguments of generic calls: needs-hint x synthesisable branches, every order
+M_KINDS = ["nothing", "just-lit", "just-var", "just-call", "just-nested", "plain-call", "var"]
+L_KINDS = ["lam", "lam-annot", "const-call", "const-var", "const-lit", "const-nested", "plain-call"]
+NEEDS_HINT = {"nothing", "lam"}
+
+
+def mix_branch(family, kind, v, fresh):
+    seven = ("raw", "Main.seven()")
+    if family == "M":
+        return {"nothing": lambda: gc("Maybe.Nothing", [], 1),
+                "just-lit": lambda: gc("Maybe.Just", [("lit", 3)], 1),
+                "just-var": lambda: gc("Maybe.Just", [("var", v)], 1),
+                "just-call": lambda: gc("Maybe.Just", [seven], 1),
+                "just-nested": lambda: gc("Maybe.Just", [gc("Main.id", [seven], 1)], 1),
+                "plain-call": lambda: ("raw2", "Main.mkJust(", [("var", v)], ")"),
+                "var": lambda: ("var", "mv")}[kind]()
+    x = fresh()
+    return {"lam": lambda: ("lam", [(x, False)], ("bin", "+", ("var", x), ("lit", 1))),
+            "lam-annot": lambda: ("lam", [(x, True)], ("bin", "+", ("var", x), ("var", v))),
+            "const-call": lambda: gc("Main.constFn", [seven], 1),
+            "const-var": lambda: gc("Main.constFn", [("var", v)], 1),
+            "const-lit": lambda: gc("Main.constFn", [("lit", 5)], 1),
+            "const-nested": lambda: gc("Main.constFn", [gc("Main.id", [seven], 1)], 1),
+            "plain-call": lambda: ("raw", "Main.incFn()")}[kind]()
+
+
+def mix_expr(family, shape, kinds, v, fresh):
+    """int-typed expression: a generic call with inferred type arguments one of whose arguments is an
+    if/else, a match (3 arms) or a block ending in one, with the given branch kinds in the given order"""
+    bs = [mix_branch(family, k, v, fresh) for k in kinds]
+    cond = ("bin", "<", ("var", v), ("lit", 5))
+    if shape == "match":
+        arg = ("match", ("raw2", "Main.shOf(", [("var", v)], ")"),
+               [(("pvar", "Ci", [("pwild",)]), bs[0]), (("pvar", "Re", [("pwild",), ("pwild",)]), bs[1]),
+                (("pvar", "Em", []), bs[2 % len(bs)])])
+    elif shape == "if-block":     # branches are blocks with a statement
+        t1, t2 = fresh(), fresh()
+        arg = ("if", cond, ("block", [("let", ("pid", t1), ("var", v), False)], bs[0]),
+               ("block", [("let", ("pid", t2), ("var", v), False)], bs[1]))
+    elif shape == "block-if":     # the argument is a block whose final expression is the if/else
+        t1 = fresh()
+        arg = ("block", [("let", ("pid", t1), ("var", v), False)], ("if", cond, bs[0], bs[1]))
+    else:
+        arg = ("if", cond, bs[0], bs[1])
+    if family == "M":
+        e = gc("Main.orElse", [arg, ("lit", 42)], 1)
+    else:
+        e = gc("Main.pipe", [("lit", 3), arg], 2)
+    if "var" in kinds and family == "M":
+        e = ("block", [("let", ("pid", "mv", "Maybe<int>"), gc("Maybe.Just", [("lit", 1)], 1), False)], e)
+    return e
+
+
+def mix_program(family, shape, kinds):
+    """one deterministic member of the family as a program of its own"""
+    n = [0]
+    def fresh():
+        n[0] += 1
+        return f"w{n[0]}"
+    body = mix_expr(family, shape, kinds, "v0", fresh)
+    return {"funs": [{"name": "f0", "params": ["v0"], "body": body}], "args": [[3]], "args2": [[7]],
+            "classes": LIB_ORDER + ["Main"], "split": None,
+            "forms": ["mix-" + family + "-" + shape], "broken": None, "mix": (family, shape, tuple(kinds))}
 
 
 def gc(name, args, ntp=0, prefix=None, explicit=False):
@@ -192,7 +262,7 @@ class Gen:
                 self.broke = True
                 return ("raw", "true")
             return ("lit", r.range(0, 9))
-        k = r.below(29)
+        k = r.below(31)
         d = depth - 1
         if k <= 1:
             return ("bin", r.pick(["+", "-", "*"]), self.int_expr(env, d), self.int_expr(env, d))
@@ -294,6 +364,15 @@ class Gen:
             return self.hidden_placeholder_arg(env, d)
         if k in (26, 27, 28):
             return self.branch_join(env, d)
+        if k in (29, 30) and env:
+            self.forms.add("generic-arg-branch-mix")
+            family = r.pick(["M", "L"])
+            shape = r.pick(["if", "if", "match", "if-block", "block-if"])
+            pool = [x for x in (M_KINDS if family == "M" else L_KINDS) if x != "var"]
+            kinds = [r.pick(pool) for _ in range(3 if shape == "match" else 2)]
+            if not any(x in NEEDS_HINT for x in kinds):
+                kinds[r.below(len(kinds))] = "nothing" if family == "M" else "lam"
+            return mix_expr(family, shape, kinds, r.pick(env), self.fresh)
         if k == 21 and self.broken == "underconstrained" and not self.broke:
             # a nested generic call whose type parameter does not occur in its result type: genuinely
             # underconstrained (rejected), also with explicit type arguments on the outer call
@@ -494,6 +573,8 @@ def expr_s(e):
         return pre + e[1] + targs + "(" + ", ".join(expr_s(x) for x in e[2]) + ")"
     if k == "post":
         return expr_s(e[1]) + e[2]
+    if k == "not":
+        return "!(" + expr_s(e[1]) + ")"
     if k == "paren":
         return "(" + expr_s(e[1]) + ")"
     if k == "wrap":
@@ -508,6 +589,8 @@ def main_class(p):
     ms += HELPERS
     calls = "".join(f" Process.println(Str.fromInt(Main.{f['name']}({', '.join(str(a) for a in args)})));"
                     for f, args in zip(p["funs"], p["args"]))
+    calls += "".join(f" Process.println(Str.fromInt(Main.{f['name']}({', '.join(str(a) for a in args)})));"
+                     for f, args in zip(p["funs"], p.get("args2") or []))
     ms.append("  function main(): unit = {" + calls + " }")
     order = p.get("member_order") or list(range(len(ms)))
     return "class Main {\n" + "\n".join(ms[i] for i in order) + "\n}"
@@ -567,7 +650,7 @@ def map_expr(e, f):
         return f((k, e[1], [map_expr(x, f) for x in e[2]], e[3], e[4], pre))
     if k == "post":
         return f((k, map_expr(e[1], f), e[2]))
-    if k in ("paren", "wrap"):
+    if k in ("paren", "wrap", "not"):
         return f((k, map_expr(e[1], f)))
     if k == "ptuple":
         return f((k, [map_expr(q, f) for q in e[1]]))
@@ -694,6 +777,33 @@ def nest_else_if(p, which, k):
             i = cnt[0]; cnt[0] += 1
             if i == which:
                 return ("chain", e[1], e[2], k)
+        return e
+    q = dict(p)
+    q["funs"] = [{"name": fn["name"], "params": fn["params"], "body": map_expr(fn["body"], f)} for fn in p["funs"]]
+    return q
+
+
+# ---------------------------------------------------------------- swapping if/else branches (C13)
+
+def if_sites(p):
+    cnt = [0]
+    def f(e):
+        if e[0] == "if":
+            cnt[0] += 1
+        return e
+    for fn in p["funs"]:
+        map_expr(fn["body"], f)
+    return cnt[0]
+
+
+def swap_branches(p, which):
+    """`if c { a } else { b }` -> `if !(c) { b } else { a }` at the `which`-th if/else"""
+    cnt = [0]
+    def f(e):
+        if e[0] == "if":
+            i = cnt[0]; cnt[0] += 1
+            if i == which:
+                return ("if", ("not", e[1]), e[3], e[2])
         return e
     q = dict(p)
     q["funs"] = [{"name": fn["name"], "params": fn["params"], "body": map_expr(fn["body"], f)} for fn in p["funs"]]
